@@ -269,7 +269,7 @@ func c15Neutral(src string) (kind, detail string) {
 	return "", ""
 }
 
-var c15TextsAll = []string{" c1", "", "   ", "\tcode();", " a\tb", " x\vy\fz", " x = \"q\" // y; {", " it's", " trailing  ", " `tick", "}", "/ triple", " \"dq"}
+var c15TextsAll = []string{" c1", "", "   ", "\tcode();", " a\tb", " x\vy\fz", " c\\", "\\", " x = \"q\" // y; {", " it's", " trailing  ", " `tick", "}", "/ triple", " \"dq"}
 
 func c15Decorations(full bool) [][]c15Item {
 	C := func(t string) c15Item { return c15Item{Kind: 'C', Text: t} }
